@@ -81,13 +81,14 @@ def gen(rng, kind):
     """abstract dataset (same dictionary shape as p_c10.gen_abstract)"""
     if kind == "expand":
         nt, nl = rng.randint(1, 4), rng.randint(1, 4)
-        base = 1325376000
+        base = rng.choice([1325376000, 1325376000, -86400 * 400, 2208988800])      # also runs before 1970 and after 2038
         times = sorted(rng.sample([base + 86400 * dd + 3600 * h for dd in range(3) for h in (0, 6, 12, 18)], nt))
         leads = sorted(rng.sample([0.0, 1.5, 6.0, 7.5, 12.0, 18.0, 24.0, 30.0], nl))      # also lead times that are not whole hours
     else:
         nt, nl = rng.randint(1, 4), rng.randint(1, 5)
-        times = sorted(rng.sample([1325376000 + 21600 * k for k in range(8)], nt))
-        leads = sorted(rng.sample([0.0, 1.0, 2.0, 3.0, 6.0, 12.0, 24.0], nl))
+        base2 = rng.choice([1325376000, 1325376000, 1325376000, -86400 * 400, 2208988800])
+        times = sorted(rng.sample([base2 + 21600 * k for k in range(8)], nt))
+        leads = sorted(rng.sample([0.0, 0.5, 1.0, 1.5, 2.0, 2.25, 3.0, 6.0, 12.0, 24.0], nl))      # also lead times that are not whole hours
     ns = rng.randint(1, 3)
     locs = sorted(rng.sample([(1, 60.0, 10.0, 100.0), (2, 60.5, 10.5, 0.0), (7, 59.0, -120.0, 250.0), (18, -33.5, 151.25, 12.0)], ns))
     miss = rng.choice([0.0, 0.1, 0.3])
@@ -367,6 +368,61 @@ def _explore(out, tier, seed, facts, replay):
                 pending.append(("expandverif:obs", "expandverif %s, variable obs" % " ".join(argv[3:]), imp, orc, rep, "tie:Scripts.expand_cell"))
                 if len(samples) < 3:
                     samples.append({k: rep[k] for k in ("script", "argv", "format", "times", "leads")})
+        # ---- accumulate on series of realistic length (scipy picks another convolution method for large arrays): a missing
+        #      value makes exactly the windows that contain it missing, nothing else
+        for big in range(2 if tier == "quick" else 6):
+            nt_b, nl_b, ns_b = rng.choice([(30, 240, 10), (50, 120, 20), (200, 67, 12)])
+            axis_b = rng.choice(["leadtime", "time"])
+            w_b = rng.choice([12, 24])
+            arr_o = np.round(np.array([rng.random() * 10 for _ in range(nt_b * nl_b * ns_b)]).reshape(nt_b, nl_b, ns_b), 1)
+            arr_f = arr_o + 1.0
+            holes = [(rng.randrange(nt_b), rng.randrange(nl_b), rng.randrange(ns_b)) for _ in range(3)]
+            for h_ in holes:
+                arr_o[h_] = NAN
+            d_b = {"times": [1325376000 + 86400 * k for k in range(nt_b)], "leads": [float(k) for k in range(nl_b)],
+                   "locs": [(k + 1, 60.0, 10.0 + k, 100.0) for k in range(ns_b)], "ids_from_zero": False, "thr": [], "qua": [], "nmem": 0,
+                   "arrays": {"obs": arr_o, "fcst": arr_f}, "other": []}
+            fin_b = os.path.join(tmp, "big%d_in.nc" % big)
+            fo_b = os.path.join(tmp, "big%d_out.nc" % big)
+            p_c10.write_nc(fin_b, d_b, rng, {"location": True, "latlon": True, "altitude": True, "fill": None})
+            argv_b = [fin_b, fo_b, "-w", str(w_b)] + (["-x", "time"] if axis_b == "time" else [])
+            st, info = run_script("accumulate", argv_b)
+            stats["accumulate"] += 1
+            rep_b = {"script": "accumulate", "argv": argv_b[2:], "shape": [nt_b, nl_b, ns_b], "missing_observations_at(time,lead,location)": holes,
+                     "values": "obs = random multiples of 0.1 in [0, 10], fcst = obs + 1"}
+            if st != "ok":
+                out.violation("accumulate:large:%s" % st, "accumulate %s on a %dx%dx%d file ends with %s %s" % (" ".join(argv_b[2:]), nt_b, nl_b, ns_b, st, info), rep_b)
+                continue
+            o_b = read_nc(fo_b)
+            ax_i = 1 if axis_b == "leadtime" else 0
+            for f_ in ("obs", "fcst"):
+                a_ = d_b["arrays"][f_]
+                cs = np.cumsum(np.where(np.isnan(a_), 0.0, a_), axis=ax_i)
+                nn = np.cumsum(np.isnan(a_).astype(int), axis=ax_i)
+                want_b = np.full(a_.shape, NAN)
+                sl_hi = [slice(None)] * 3
+                sl_lo = [slice(None)] * 3
+                sl_hi[ax_i] = slice(w_b - 1, None)
+                n_ax = a_.shape[ax_i]
+                zero_shape = list(a_.shape)
+                zero_shape[ax_i] = 1
+                cs0 = np.concatenate([np.zeros(zero_shape), cs], axis=ax_i)
+                nn0 = np.concatenate([np.zeros(zero_shape, int), nn], axis=ax_i)
+                hi_ = [slice(None)] * 3
+                lo_ = [slice(None)] * 3
+                hi_[ax_i] = slice(w_b, n_ax + 1)
+                lo_[ax_i] = slice(0, n_ax + 1 - w_b)
+                sums_ = cs0[tuple(hi_)] - cs0[tuple(lo_)]
+                miss_ = (nn0[tuple(hi_)] - nn0[tuple(lo_)]) > 0
+                want_b[tuple(sl_hi)] = np.where(miss_, NAN, sums_)
+                got_b = o_b.get(f_)
+                if got_b is None or got_b.shape != want_b.shape:
+                    out.violation("accumulate:large:shape", "accumulate %s: %s missing or of the wrong shape" % (" ".join(argv_b[2:]), f_), rep_b)
+                    continue
+                nb = np.isnan(got_b) != np.isnan(want_b)
+                if nb.any() or not np.allclose(got_b[~np.isnan(want_b)], want_b[~np.isnan(want_b)], rtol=1e-5, atol=1e-3):
+                    out.violation("accumulate:large:window", "accumulate %s on a %dx%dx%d file: %s has %d missing values, the windows that are incomplete or contain a missing value number %d "
+                                  "(%d cells differ in missingness)" % (" ".join(argv_b[2:]), nt_b, nl_b, ns_b, f_, int(np.isnan(got_b).sum()), int(np.isnan(want_b).sum()), int(nb.sum())), rep_b)
     finally:
         shutil.rmtree(tmp, ignore_errors=True)
     agree = 0
